@@ -3,7 +3,8 @@
  * (row coalescing: crects / prect_line_start).
  *
  *   -DVC_W=<width>   fixed width 33..96 (one job per width)
- *   -DVC_H=<1|2>     height
+ *   -DVC_H=<1|2|3>   height (3: a band that was merged once is merged again)
+ *   -DVC_GAP         (with VC_H=3) only bitmaps whose row 1 is clear and whose rows 0 and 2 are equal
  *   -DVR16           16-bit instantiation
  *
  * The real init_from_image AND the real bitmap_addrect run.  What made widths > 3 intractable in
@@ -50,37 +51,11 @@ static int msc_alloc_live, msc_alloc_calls;
 static void *msc_block;
 static size_t msc_last_request;
 #ifdef VH_CBMC
-#define MSC_CAP (16 + 16 * (size_t) MSC_CAP_RECTS)
-static void *msc_malloc (size_t n)
-{
-    void *p;
-    VH_CHECK ("alloc.request_within_modelled_capacity", n <= MSC_CAP);
-    VH_CHECK ("alloc.one_live_block", msc_alloc_live == 0);
-    p = malloc (MSC_CAP);
-    __CPROVER_assume (p != (void *) 0);
-    msc_block = p;
-    msc_alloc_live = 1;
-    msc_alloc_calls++;
-    msc_last_request = n;
-    return p;
-}
-static void *msc_realloc (void *p, size_t n)
-{
-    VH_CHECK ("alloc.realloc_of_live_block", p == msc_block && msc_alloc_live == 1);
-    VH_CHECK ("alloc.request_within_modelled_capacity", n <= MSC_CAP);
-    msc_alloc_calls++;
-    msc_last_request = n;
-    return p;
-}
-static void msc_free (void *p)
-{
-    if (p)
-    {
-        VH_CHECK ("alloc.free_of_live_block", p == msc_block && msc_alloc_live == 1);
-        msc_alloc_live = 0;
-    }
-    free (p);
-}
+/* the modelled block is a typed static object (header + MSC_CAP_RECTS boxes, the layout region_data_type_t
+ * documents): defined after the region types exist */
+static void *msc_malloc (size_t n);
+static void *msc_realloc (void *p, size_t n);
+static void msc_free (void *p);
 #else
 static void *msc_malloc (size_t n) { void *p = malloc (n); msc_block = p; msc_alloc_live = 1; msc_alloc_calls++; msc_last_request = n; return p; }
 static void *msc_realloc (void *p, size_t n) { void *q = realloc (p, n); msc_block = q; msc_alloc_calls++; msc_last_request = n; return q; }
@@ -97,7 +72,82 @@ static void msc_free (void *p) { if (p) msc_alloc_live = 0; free (p); }
 
 #define RQ_IMG_MAXRECTS MSC_MAXRECTS
 
+#ifdef VH_CBMC
+#undef malloc
+#undef realloc
+#undef free
+static struct { region_data_type_t hdr; box_type_t b[MSC_CAP_RECTS]; } msc_blk;
+#define MSC_CAP sizeof (msc_blk)
+static void *msc_malloc (size_t n)
+{
+    VH_CHECK ("alloc.request_within_modelled_capacity", n <= MSC_CAP);
+    VH_CHECK ("alloc.one_live_block", msc_alloc_live == 0);
+    msc_block = &msc_blk;
+    msc_alloc_live = 1;
+    msc_alloc_calls++;
+    msc_last_request = n;
+    return msc_block;
+}
+static void *msc_realloc (void *p, size_t n)
+{
+    VH_CHECK ("alloc.realloc_of_live_block", p == msc_block && msc_alloc_live == 1);
+    VH_CHECK ("alloc.request_within_modelled_capacity", n <= MSC_CAP);
+    msc_alloc_calls++;
+    msc_last_request = n;
+    return p;
+}
+static void msc_free (void *p)
+{
+    if (p)
+    {
+        VH_CHECK ("alloc.free_of_live_block", p == msc_block && msc_alloc_live == 1);
+        msc_alloc_live = 0;
+    }
+}
+#endif
+
 static uint32_t bits[MSC_NW], copy[MSC_NW];
+
+/* spec (from the property text; loops with constant bounds so that the unwinding bound is the stated one):
+ * p in the union of the first n rectangles */
+static int
+msc_in_rects (const box_type_t *r, int n, long px, long py)
+{
+    int i, in = 0;
+    for (i = 0; i < MSC_MAXRECTS; i++)
+        if (i < n && r[i].x1 <= px && px < r[i].x2 && r[i].y1 <= py && py < r[i].y2)
+            in = 1;
+    return in;
+}
+
+/* canonical y-x banded form (C06 wording): every rect non-empty; consecutive rects either in the same band
+ * (same y1, y2) with a GAP between them (x2_i < x1_{i+1}: runs are maximal), or the next one starts a new band at
+ * or below the end of the current one; extents = tight bounding box */
+static int
+msc_canon (const box_type_t *r, int n, const box_type_t *ext)
+{
+    int i, ok = 1;
+    long minx = r[0].x1, maxx = r[0].x2, lasty2 = r[0].y2;
+    for (i = 0; i < MSC_MAXRECTS; i++)
+        if (i < n)
+        {
+            if (!(r[i].x1 < r[i].x2 && r[i].y1 < r[i].y2))
+                ok = 0;
+            if (r[i].x1 < minx) minx = r[i].x1;
+            if (r[i].x2 > maxx) maxx = r[i].x2;
+            lasty2 = r[i].y2;
+            if (i + 1 < n)
+            {
+                int same_band = r[i + 1].y1 == r[i].y1 && r[i + 1].y2 == r[i].y2 && r[i].x2 < r[i + 1].x1;
+                int next_band = r[i + 1].y1 >= r[i].y2;
+                if (!same_band && !next_band)
+                    ok = 0;
+            }
+        }
+    if (!(ext->x1 == minx && ext->x2 == maxx && ext->y1 == r[0].y1 && ext->y2 == lasty2))
+        ok = 0;
+    return ok;
+}
 
 void harness (void)
 {
@@ -116,6 +166,18 @@ void harness (void)
     in_w[0] = in_w0; in_w[1] = in_w1; in_w[2] = in_w2; in_w[3] = in_w3;
     in_w[4] = in_w4; in_w[5] = in_w5; in_w[6] = in_w6; in_w[7] = in_w7;
     stride = in_stride_pad ? MSC_STRIDE : MSC_WORDS;
+#if defined (VC_GAP) && VC_H == 3
+    /* the "band, gap, same band again" family only (rows 0 and 2 hold the same pixels, row 1 is clear): a wider
+     * image than the unrestricted 3-row jobs can afford; narrows the domain, listed in Job.assumptions */
+    {
+        int x;
+        for (x = 0; x < VC_W; x++)
+        {
+            VH_ASSUME (RQ_A1_BIT (in_w, stride, x, 1) == 0);
+            VH_ASSUME (RQ_A1_BIT (in_w, stride, x, 0) == RQ_A1_BIT (in_w, stride, x, 2));
+        }
+    }
+#endif
     for (i = 0; i < MSC_NW; i++)
     {
         bits[i] = in_w[i];
@@ -146,12 +208,30 @@ void harness (void)
     r2 = res;
     bit = 0 <= in_px && in_px < VC_W && 0 <= in_py && in_py < VC_H &&
           RQ_A1_BIT (bits, stride, in_px, in_py) != 0;
-    in = n2 > 0 && n2 <= RQ_IMG_MAXRECTS && rq_in_rects (r2, n2, in_px, in_py);
+    in = n2 > 0 && n2 <= RQ_IMG_MAXRECTS && msc_in_rects (r2, n2, in_px, in_py);
     VH_CHECK ("post.point_in_region_iff_bit_set", in == bit);
     VH_CHECK ("post.shape.empty_result_is_static_empty", n2 != 0 || (region.data == pixman_region_empty_data &&
               region.extents.x1 == region.extents.x2 && region.extents.y1 == region.extents.y2));
     VH_CHECK ("post.shape.single_rect_stored_inline", n2 != 1 || region.data == (region_data_type_t *) 0);
-    VH_CHECK ("post.shape.canonical", n2 < 1 || n2 > RQ_IMG_MAXRECTS || rq_canon_rects (r2, n2, &region.extents, VC_COAL));
+    VH_CHECK ("post.shape.canonical", n2 < 1 || n2 > RQ_IMG_MAXRECTS || msc_canon (r2, n2, &region.extents));
+#if VC_H >= 2
+    {
+        /* identical adjacent bands are merged: where rows y and y+1 hold the same pixels no rectangle ends or
+         * starts at the border between them */
+        int x, y, coalesced = 1;
+        for (y = 0; y + 1 < VC_H; y++)
+        {
+            int rows_equal = 1;
+            for (x = 0; x < VC_W; x++)
+                if (RQ_A1_BIT (bits, stride, x, y) != RQ_A1_BIT (bits, stride, x, y + 1))
+                    rows_equal = 0;
+            for (i = 0; i < RQ_IMG_MAXRECTS; i++)
+                if (i < n2 && rows_equal && (r2[i].y2 == y + 1 || r2[i].y1 == y + 1))
+                    coalesced = 0;
+        }
+        VH_CHECK ("post.shape.equal_rows_are_coalesced", n2 < 1 || n2 > RQ_IMG_MAXRECTS || coalesced);
+    }
+#endif
     ok = 1;
     for (i = 0; i < MSC_NW; i++)
         if (copy[i] != bits[i])
